@@ -137,7 +137,7 @@ def r06_2(ctx):
                 if c is not None and c.get("int") == 0:
                     r.ob(key, True, C.mloc(mb, e["node"]), "insert at constant index 0")
                 else:
-                    r.ob(key, None, C.mloc(mb, e["node"]), "insert at a computed index: not decided")
+                    r.ob(key, False, C.mloc(mb, e["node"]), "insert at a computed index: the declaration is not shown to come before the statements that use the temporary")
             elif short == "splice":
                 rng = const_range_of(mb, e["node"]["args"][1]) if len(e["node"].get("args", [])) > 1 else None
                 if rng == (0, 0):
